@@ -71,6 +71,11 @@ type fataler interface {
 	Fatalf(string, ...interface{})
 }
 
+// sameScalar: two held integers denote the same element of Z_n.
+func sameScalar(a, b *big.Int) bool {
+	return new(big.Int).Mod(new(big.Int).Sub(a, b), order).Sign() == 0
+}
+
 func cp(b []byte) []byte { return append([]byte{}, b...) }
 
 func cat(bs ...[]byte) []byte {
@@ -109,6 +114,28 @@ func genSeckey(t *rapid.T, label string) groupsig.Seckey {
 		if sk != nil && sk.IsValid() {
 			stats.Class("sk:from_seed")
 			return *sk
+		}
+	}
+	if rapid.IntRange(0, 3).Draw(t, label+"Wire") == 0 {
+		// a key as it comes off the wire or out of a config file: Deserialize / SetHexString do not reduce,
+		// so the held value is anywhere in [0, 2^256) (about 44% of them >= p)
+		raw := rapid.SliceOfN(rapid.Byte(), 32, 32).Draw(t, label+"WireBytes")
+		var sk groupsig.Seckey
+		if rapid.Bool().Draw(t, label+"WireHex") {
+			sk.SetHexString("0x" + new(big.Int).SetBytes(raw).Text(16))
+		} else {
+			sk.Deserialize(raw)
+		}
+		if new(big.Int).Mod(sk.GetBigInt(), order).Sign() != 0 {
+			switch h := sk.GetBigInt(); {
+			case h.Cmp(order) < 0:
+				stats.Class("sk:wire_below_n")
+			case h.Cmp(p) < 0:
+				stats.Class("sk:wire_n_to_p")
+			default:
+				stats.Class("sk:wire_ge_p")
+			}
+			return sk
 		}
 	}
 	v := genScalar().Draw(t, label)
@@ -414,7 +441,7 @@ func sigCandidates(t *rapid.T, e *sigEnv) []cand {
 	sOtherKey := groupsig.Sign(sk2, e.msg)
 	sOtherBoth := groupsig.Sign(sk2, msg2)
 	msgDiffers := !bytes.Equal(msg2, e.msg)
-	keyDiffers := sk2.GetBigInt().Cmp(e.skInt) != 0
+	keyDiffers := !sameScalar(sk2.GetBigInt(), e.skInt)
 	cs = append(cs, cand{"other_msg_" + rel, sOtherMsg.Serialize(), msgDiffers})
 	cs = append(cs, cand{"other_key", sOtherKey.Serialize(), keyDiffers})
 	cs = append(cs, cand{"other_key_and_msg", sOtherBoth.Serialize(), msgDiffers && keyDiffers}) // one differing alone could cancel only by collision
@@ -583,7 +610,7 @@ func pkCandidates(t *rapid.T, e *sigEnv) []cand {
 	add("generator", cp(g2genB))
 	sk2 := genSeckey(t, "sk2")
 	pk2b := groupsig.GeneratePubkey(sk2).Serialize()
-	cs = append(cs, cand{"other_key", pk2b, sk2.GetBigInt().Cmp(e.skInt) != 0})
+	cs = append(cs, cand{"other_key", pk2b, !sameScalar(sk2.GetBigInt(), e.skInt)})
 	if o, cls := ref.G2DecodeStrict(pk2b); cls == ref.EncPoint {
 		add("sum_with_other_key", ref.G2Encode(ref.G2Add(PK, o)))
 	}
@@ -726,7 +753,8 @@ func TestRoundTrips(t *testing.T) {
 		skA, skB := genSeckey(t, "skA"), genSeckey(t, "skB")
 		msg := genMsg().Draw(t, "msg")
 		a, b := skA.GetBigInt(), skB.GetBigInt()
-		same := a.Cmp(b) == 0
+		same := a.Cmp(b) == 0       // the held integers (Seckey.IsEqual compares these)
+		sameMod := sameScalar(a, b) // the scalars they denote (public keys, signatures, ids derive from these)
 		key := ""
 		if a.BitLen() > 64 {
 			key = fmt.Sprintf("rt:%x:%x", a, msg)
@@ -769,7 +797,7 @@ func TestRoundTrips(t *testing.T) {
 		if err != nil || json.Unmarshal(js, &pk5) != nil || !pk5.IsEqual(pkA) {
 			t.Fatalf("Pubkey JSON round trip: %s err=%v", js, err)
 		}
-		if pkA.IsEqual(pkB) != same {
+		if pkA.IsEqual(pkB) != sameMod {
 			t.Fatalf("Pubkey.IsEqual for keys of %x and %x = %v", a, b, !same)
 		}
 
@@ -787,7 +815,7 @@ func TestRoundTrips(t *testing.T) {
 		if err := sg4.SetHexString(sigA.GetHexString()); err != nil || !sg4.IsEqual(sigA) || !bytes.Equal(sg4.Serialize(), gb) {
 			t.Fatalf("Signature hex round trip: %s", sigA.GetHexString())
 		}
-		if sigA.IsEqual(sigB) != same {
+		if sigA.IsEqual(sigB) != sameMod {
 			t.Fatalf("Signature.IsEqual for signatures of keys %x and %x = %v", a, b, !same)
 		}
 		if !sg2.IsValid() || !groupsig.VerifySig(pk2, msg, sg2) {
@@ -836,7 +864,7 @@ func TestRoundTrips(t *testing.T) {
 		}
 		idB := *groupsig.NewIDFromPubkey(pkB)
 		idA := *groupsig.NewIDFromPubkey(pkA)
-		if idA.IsEqual(idB) != same {
+		if idA.IsEqual(idB) != sameMod {
 			t.Fatalf("ID.IsEqual for ids of different keys = %v", !same)
 		}
 	})
